@@ -156,6 +156,17 @@ def make_fake_websocket_module(peer, log):
             self.connected = False
             self.conn.close()
 
+        def __del__(self):
+            # websocket-client's socket is closed when the last reference to
+            # the connection object goes away (the threaded client relies on
+            # that when it abandons a failed upgrade attempt)
+            try:
+                if self.connected:
+                    self.connected = False
+                    self.conn.close()
+            except BaseException:
+                pass
+
     def create_connection(url, **opts):
         log.append({'kind': 'ws-connect', 'url': url,
                     'timeout': opts.get('timeout'),
@@ -1120,6 +1131,7 @@ def _split(url):
 class PeerT:
     """Threaded client <-> threaded server under one scheduler."""
     lat = None      # callable -> one-way network latency (virtual seconds)
+    drop_probe_answers = 0      # that many PONG 'probe' frames get lost
 
     def __init__(self, sim):
         self.sim = sim
@@ -1162,7 +1174,12 @@ class PeerT:
         ev = vsched.VEvent(self.sched)
         inbox = vsched.VQueue(self.sched)
         ws.on_accept = lambda c: ev.set()
-        ws.on_frame = lambda c, fr: inbox.put(fr)
+        def on_frame(c, fr):
+            if fr == '3probe' and self.drop_probe_answers > 0:
+                self.drop_probe_answers -= 1    # lost on the way
+                return
+            inbox.put(fr)
+        ws.on_frame = on_frame
         ws.on_close = lambda c: inbox.put(CLOSED)
         if t.done or ws.accepted:
             ev.set()
